@@ -258,7 +258,8 @@ GenDoc(type, size) == LET t == Topo(type, size) IN
 (*   block = [shape (set of disjoint rectangles: the polygon), area, kind] *)
 (*           kind "soft" | "hard" (FloorSet "fixed") | "fixed" (pre-placed)*)
 (*   pin   = <<x, y>>;  b2b = <<block, block, w>>, p2b = <<pin, block, w>> *)
-(*           (0-based indices, w = <<n, d>>, positive)                     *)
+(*           (0-based indices, w = <<n, d>> >= 0; 0 stands for weight 1)   *)
+(*   dens  = <<>> (weights as given) | <<n, d>> (weights scaled), unit     *)
 (***************************************************************************)
 ShapeArea(sh) == FoldLeft(LAMBDA acc, t : acc + Area(RectT(t)), 0, sh)
 ShapeMx(sh) == FoldLeft(LAMBDA acc, t : acc + Area(RectT(t)) * Cx2(RectT(t)), 0, sh)
@@ -404,7 +405,9 @@ Producers == {"die", "alloc", "netgen", "floorset_fpef", "floorset_dief", "rect_
 Sources(p) == CASE p = "die" -> Dies
                 [] p = "alloc" -> Allocs
                 [] p = "netgen" -> GenParams
-                [] p \in {"floorset_fpef", "floorset_dief"} -> Instances
+                [] p = "floorset_fpef" -> Instances
+                \* (the die is spanned by the blocks and the pins alone: one wiring per placement; the random driver keeps others)
+                [] p = "floorset_dief" -> { i \in Instances : i.b2b = <<>> /\ i.p2b = << <<0, 0, One>> >> /\ i.dens = <<>> }
                 \* the rect stage starts from an allocation in which something is allocated and nothing is listed with 0
                 [] p = "rect_netlist" -> { a \in Allocs : AMods(a) # <<>> /\ \A i \in DOMAIN a : \A k \in DOMAIN a[i][7] : a[i][7][k][2] > 0 }
                 [] p = "rect_solution" -> Solutions
